@@ -144,6 +144,12 @@ def verify_bitcount(chk: Check):
     """ctz / cto: `for i in range(size): if [not] value & (1 << i): return i` ... `return size`; installs the
     evaluation model for calls of the helper once its structure is confirmed."""
     R = chk.R
+    # models are per analysed tree: forget what an earlier analysis in this process installed
+    for q in list(_DELEGATES):
+        S._MODELS.pop(q, None)
+    _DELEGATES.clear()
+    for name in ("ctz", "cto"):
+        S._MODELS.pop(f"{CREL}::{name}", None)
     for name, ones in (("ctz", False), ("cto", True)):
         if not chk.prog.has_func(CREL, name):
             chk.violated("K-FORMULA", f"bitcount:{name}", (CREL, name, 0), f"helper {name} is missing")
@@ -152,6 +158,36 @@ def verify_bitcount(chk: Check):
         outs = func_outcomes(chk, ctx)
         V, SZ = ("p", ctx.qual, 0), ("p", ctx.qual, 1)
         floops = [l for l in ctx.loops if isinstance(l, ast.For)]
+        if not ctx.loops and len(outs) == 1 and outs[0][0] == "return" and outs[0][3][0] == "call" and "::" in outs[0][3][1]:
+            # the count is delegated to another function of the module (one helper for both directions): that function's loop is
+            # evaluated with its parameters bound to the arguments of the call
+            callee = outs[0][3]
+            fdef = R._func_by_key(callee[1]) if hasattr(R, "_func_by_key") else None
+            if fdef is not None:
+                cctx = R.ctx_of(fdef)
+                if len(cctx.loops) == 1 and len(callee[2]) == len(fdef.args.args) and not callee[3]:
+                    def bind(v, sz, _args=callee[2], _q=cctx.qual):
+                        val = S.Valuation(1, override={V: v, SZ: sz})
+                        return {("p", _q, i): S.ev(a, val) for i, a in enumerate(_args)}
+                    # which parameter of the callee is the size: the one bound to our size argument
+                    szi = [i for i, a in enumerate(callee[2]) if a == SZ]
+                    if len(szi) == 1:
+                        res = _bitcount_by_simulation(chk, cctx, cctx.loops[0], None, ("p", cctx.qual, szi[0]), ones, func_outcomes(chk, cctx), bind=bind)
+                        if res is not None:
+                            bad, n = res
+                            chk.decide(not bad, "K-FORMULA", f"bitcount:{name}", ctx.func,
+                                       f"{name}(value, size) = number of trailing {'one' if ones else 'zero'} bits, `size` if there is none "
+                                       f"(delegated to {cctx.qual.split('::')[-1]}; {n} (value, size) vectors evaluated round by round)" if not bad else "; ".join(bad[:3]))
+                            if not bad:
+                                S._MODELS[ctx.qual] = (lambda ones_: (lambda v, size=32: _count(v, size, ones_)))(ones)
+                                # calls of ctz / cto are reconstructed as calls of the shared helper: it gets the model too, selected
+                                # by the constant arguments this delegation passes
+                                consts = {i: a[1] for i, a in enumerate(callee[2]) if S.is_const(a)}
+                                vidx = [i for i, a in enumerate(callee[2]) if a == V]
+                                if len(vidx) == 1:
+                                    _DELEGATES.setdefault(cctx.qual, []).append((consts, vidx[0], szi[0], ones))
+                                    S._MODELS[cctx.qual] = (lambda q: (lambda *args: _delegate_model(q, args)))(cctx.qual)
+                            continue
         if not ctx.loops:
             # a closed form (bit tricks): decided by evaluating the function's exits against the reference count on every
             # 8-bit value with sizes 1..8, and on boundary values of the 32- and 64-bit sizes the callers use
@@ -217,7 +253,17 @@ def verify_bitcount(chk: Check):
             S._MODELS[ctx.qual] = (lambda ones_: (lambda v, size=32: _count(v, size, ones_)))(ones)
 
 
-def _bitcount_by_simulation(chk: Check, ctx, loop, V, SZ, ones, outs):
+_DELEGATES = {}
+
+
+def _delegate_model(qual, args):
+    for consts, vidx, szi, ones in _DELEGATES.get(qual, ()):
+        if all(i < len(args) and args[i] == c for i, c in consts.items()):
+            return _count(args[vidx], args[szi], ones)
+    raise S.EvalError("no verified binding of the bit-count helper for these arguments")
+
+
+def _bitcount_by_simulation(chk: Check, ctx, loop, V, SZ, ones, outs, bind=None):
     """-> ([mismatches], vectors evaluated) or None when the loop cannot be evaluated round by round."""
     R = chk.R
     carried = loop_carried(chk, ctx, loop)
@@ -236,7 +282,7 @@ def _bitcount_by_simulation(chk: Check, ctx, loop, V, SZ, ones, outs):
         vectors += [(v, sz) for v in (0, 1, 2, 4, 8, 12, (1 << sz) - 1, 1 << (sz - 1), (1 << sz), (1 << (sz - 1)) - 1, 0x5555, 0xFFFF0000, 7, 0xFF)]
     bad = []
     for v, sz in vectors:
-        base = {V: v, SZ: sz}
+        base = {V: v, SZ: sz} if bind is None else bind(v, sz)
         inputs = [dict({I: k} if I is not None else {}) for k in range(sz + (0 if I is not None else 1))]
         rounds = simulate_loop(chk, ctx, loop, carried, inputs, base=base)
         got = None
@@ -829,11 +875,30 @@ def host_by_type(chk: Check, G: Geo, ctx, loop, y, env, sttype, dom):
         return
     start = ctx.cfg.node_of[tests[0]]
     hostname = y.value.elts[2].id if isinstance(y.value, ast.Tuple) and isinstance(y.value.elts[2], ast.Name) else None
+    entry = env["ENTRY"]
     if hostname is None:
-        chk.undecided("K-DISPATCH", "runs:host-offset-by-type", y, "host offset is not a plain variable")
+        # the third component is not a plain variable (a constructor call, an expression): its reconstructed value - a conditional
+        # on the type tests - is compared per type instead of following the variable along the path
+        t = R.expr(ctx, y.value, ynode)
+        if not (t[0] == "tuple" and len(t[1]) == 4):
+            chk.undecided("K-DISPATCH", "runs:host-offset-by-type", y, "cannot find the host offset component of the run")
+            return
+        bad = []
+        for typ in range(6):
+            if typ == ST["COMPRESSED"]:
+                want = S.op("and", entry, S.C(0x3FFFFFFFFFFFFFFF))
+            elif typ in (ST["NORMAL"], ST["ZERO_ALLOC"], ST["UNALLOCATED_ALLOC"]):
+                want = S.op("add", S.op("and", entry, S.C(OFFMASK)), env["oic"])
+            else:
+                continue
+            r = S.equiv(t[1][2], want, domain=dom, n=40, override={sttype: S.EnumConst(typ)})
+            if r.equal is not True:
+                bad.append(f"type {typ}: host offset {S.show(t[1][2])[:120]}, specified {S.show(want)[:120]}")
+        chk.decide(not bad, "K-DISPATCH", "runs:host-offset-by-type", y,
+                   "COMPRESSED -> entry & descriptor mask; NORMAL/ZERO_ALLOC/UNALLOCATED_ALLOC -> (entry & L2E_OFFSET_MASK) + offset in cluster"
+                   if not bad else "; ".join(bad[:3]))
         return
     bad = []
-    entry = env["ENTRY"]
     for typ in range(6):
         val = S.Valuation(3, override={sttype: S.EnumConst(typ)}, domain=dom)
         visited, ex = walk_cfg(chk, ctx, start, val, stop=lambda n: n is ynode)
